@@ -34,15 +34,47 @@ def payload_factory(spec, rows):
     return CountingSequence(rows)
 
 
+SEL_NONE = ("sel", ("gt", R("a"), L(99)))
+VARIANTS = {
+    # name -> (program under the shared materialization, expected rows of the materialization)
+    "iteration": (("L", SEL), None),
+    "iteration-dedup": (("L", SEL, ("dedup",)), "dedup"),
+    "iteration-sort": (("L", SEL, ("sort", ((R("b"), True),))), "sort"),
+    "iteration-empty": (("L", SEL_NONE), "empty"),
+    "iteration-doomed-left-chain": (("L", SEL, ("chain", ("D",), True)), None),
+}
+
+
+def _expected(kind):
+    rows = [dict(zip(ABC, r)) for r in ROWS if r[0] > 1]
+    if kind == "dedup":
+        out = []
+        for r in rows:
+            if r not in out:
+                out.append(r)
+        return out
+    if kind == "sort":
+        return sorted(rows, key=lambda r: r["b"])
+    if kind == "empty":
+        return []
+    return rows
+
+
 class Scenario:
     """Builds the trees of one scenario on fresh objects."""
 
     def __init__(self, name):
         self.name = name
-        if name == "iteration":
-            w = World(engines=(("e1", "it"), ("e2", "it")), leaves=(LeafSpec("L", "e1", ABC, ROWS),))
+        self.expect_m = EXPECT_M
+        if name in VARIANTS:
+            prog, kind = VARIANTS[name]
+            w = World(
+                engines=(("e1", "it"), ("e2", "it")),
+                leaves=(LeafSpec("L", "e1", ABC, ROWS), LeafSpec("D", "e1", ABC, (), special="doomed")),
+            )
             self.ctx = Ctx(w, payload_factory)
-            base = self.ctx.build(("L", SEL))
+            base = self.ctx.build(prog)
+            self.expect_m = _expected(kind)
             self.transfer = None
         elif name == "sql-source":
             w = World(engines=(("s", "sql"), ("e1", "it")), leaves=(LeafSpec("X", "s", ABC, ROWS),))
@@ -73,13 +105,9 @@ class Scenario:
             ctx.apply(top, ("proj", ("a", "b"))),
             ctx.apply(top, ("chain", ("self",))),
         ]
-        self.expect = [
-            EXPECT_M,
-            [{k: r[k] for k in ("a", "b")} for r in EXPECT_M],
-            EXPECT_M + EXPECT_M,
-        ]
+        em = self.expect_m
+        self.expect = [em, [{k: r[k] for k in ("a", "b")} for r in em], em + em]
         leaf = ctx.leaves["L" if "L" in ctx.leaves else "X"]
-        unary = base if name != "sql-source" else base.target
         self.nodes = {
             "leaf": leaf,
             "unary": next(n for n in walk.walk(self.trees[1]) if type(n).__name__ == "UnaryOperationRelation"),
@@ -95,7 +123,7 @@ class Scenario:
         """A correct payload object for the node's engine (P1 and P2 are distinct objects, same rows)."""
         key = (which, id(node))
         if key not in self.p:
-            rows = EXPECT_M
+            rows = self.expect_m
             eng = node.engine
             if isinstance(eng, iteration.Engine):
                 self.p[key] = iteration.RowSequence([{A.tag(k): v for k, v in r.items()} for r in rows])
@@ -233,12 +261,14 @@ def _fmt(h):
     return f"attach({x},{y})" if kind == "attach" else f"{kind}(T{x + 1})"
 
 
-SCENARIOS = ("iteration", "sql-source", "sql-materialization", "sql-materialization-over-transfer")
+SCENARIOS = tuple(VARIANTS) + ("sql-source", "sql-materialization", "sql-materialization-over-transfer")
 
 
 def run(tier, seed):
     depth = 4 if tier == "quick" else 5
     depths = {name: (depth if name == "iteration" else depth - 1) for name in SCENARIOS}
+    if tier == "thorough":
+        depths = {name: (depth if name.startswith("iteration") else depth - 1) for name in SCENARIOS}
     tasks = []
     for name in SCENARIOS:
         acts = actions(Scenario(name))
